@@ -21,6 +21,9 @@ impl AtomicU64 {
 //@end
 //@fn atomicu64_load
 //@| fn: src/types.rs | impl AtomicU64 | fn load
+//@| ret: r
+//@| ensures:
+//@|     r == self.0.g_val(),
 //@end
 //@fn atomicu64_store
 //@| fn: src/types.rs | impl AtomicU64 | fn store
